@@ -76,6 +76,14 @@ CHECKS = {
             "TLC derives every document of up to 3 constructs (text, comments, doctype, CDATA, start tags with four attribute styles, void and end tags, the seven raw-text elements with look-alike end tags and double-escape shapes, svg/math subtrees) and, per template dialect, delimited regions in text, tags, attribute names and values and raw text; the harness spells each with case and whitespace variations, lexes it under the plain lexer and the dialects, mutates it, and TLC validates one token per construct with type, lower-cased Text()/AttrKey(), verbatim AttrVal(), HasTemplate(), and for all inputs that attribute tokens occur only inside a tag and raw text is never tokenised as markup.",
             "Regions directly followed by name characters, and regions in comments/doctype/CDATA/plaintext/svg are not generated. 17 recorded finding signatures from six defects (nested svg/math, closers in single-quoted attributes, template regions after a prefix / in raw text / inside script escapes).",
             "DESIGN.md §4 C09"),
+    "C03": ("TLA+ stratified ECMAScript grammar JsGrammar.tla (ladder levels, Spell with exactly the mandatory or redundant parentheses, Canon in the format of String(), ASI spellings, negative cases) enumerated by TLC; JsClimb.tla: TLC shows the parser's precedence-climbing loop equal to the declarative ladder; replay under all four Options judged by TLC trace validation",
+            "TLC derives every expression with up to 2 operator nodes over the full operator vocabulary (every pair of operators in both nestings) and up to 3 over a reduced set, every statement kind with nested statements, bindings and destructuring, classes, arrow and assignment patterns, for-in/of heads, every legal terminator spelling (semicolon, line break, nothing) and the restricted productions, plus random large programs; for each it emits the token spelling, the String() rendering the grammar prescribes (also under WhileToFor) and negative variants (one bracket deleted or inserted, -a**b, ?? mixed with || or &&, assignment to a binary expression, two lexical declarations of a name); the harness parses ~1.15M programs x 4 Options and TLC validates accept => String() = canon, reject => error.",
+            "import/export, with, super and some exotic forms are not generated; a vocabulary constructor that never occurs in the quick cases is a fatal error of the check. Seven recorded findings (grammatical programs that js.Parse rejects).",
+            "DESIGN.md §4 C03"),
+    "C06": ("TLA+ token grammar JsTokens.tla (200 atoms from ECMA-262 §12, MergesStrict / NeedsSep by maximal munch, bracket context of '}') with generator JsTokensGen.tla; all pairs x separators, context pairs, triples, nested templates, regexp re-reads lexed by js.Lexer; TLC trace validation",
+            "TLC enumerates every pair of the 181 significant-token atoms with every admissible separator (none where safe, space, tab, newline, U+2028, comment), pairs inside template substitutions, triples, separator sequences, edge cases, regular-expression literals re-read with RegExp() after '/' and '/=', and nested templates to depth 3 (longer sequences by -simulate in thorough); the harness lexes each and TLC validates the exact (type, text) list, that keyword/punctuator/operator types are those whose canonical spelling equals the text, and CommentLineTerminator iff the comment holds a line terminator.",
+            "Legacy octal forms and escape-spelled keywords are not generated; valid UTF-8 only, as the statement says. No defect found.",
+            "DESIGN.md §4 C06"),
 }
 NOT_APPLICABLE = {
 }
